@@ -17,7 +17,8 @@ RULE = ("APIs from harness/gv/props/flatapi.py: main package (proto-plus), optio
         "a paged and a long-running RPC, with and without add-iam-methods and mixins. "
         "For each RPC and each of the sync and asyncio clients: the request given as message, as dict and omitted (unary) or a "
         "stream of 0..3 messages (client-streaming), random request and reply valuations, 0..3 replies for server-streaming; "
-        "APIs whose service config lists auto-populated UUID4 request fields (proto3 optional and plain), driven with the field unset, "
+        "requests whose set fields all hold false values but are present (proto3 optional scalars and oneof members at their default, "
+        "empty sub-messages) as message instance and as dict; APIs whose service config lists auto-populated UUID4 request fields (proto3 optional and plain), driven with the field unset, "
         "set to a value and set to the empty string explicitly; APIs with several services where a non-last one declares rpcs named like the IAM mixin methods (own or google.iam.v1 "
         "types) under a service config listing that mixin, driven over gRPC (sync, asyncio) and REST; "
         "per service one unary and one server-streaming call with 6 MiB replies through a transport built with a channel factory. "
@@ -345,6 +346,29 @@ def clean(msg):
     return re.sub(r" at 0x[0-9a-f]+", "", msg)
 
 
+def falsy_present(d, fqn, depth=0):
+    """a message whose set fields all hold FALSE values but are present: proto3 optional scalars at their default, the first
+    member of every oneof at its default, empty sub-messages (bool(msg) is False for the proto-plus wrapper, the bytes are not empty)"""
+    m = d.new(fqn)
+    seen_oneofs = set()
+    for f in m.DESCRIPTOR.fields:
+        if f.label == FD.LABEL_REPEATED:
+            continue
+        if f.type == FD.TYPE_MESSAGE:
+            if f.message_type.full_name.startswith("google.protobuf.") or depth >= 1:
+                continue
+            if f.containing_oneof is None:
+                getattr(m, f.name).CopyFrom(falsy_present(d, f.message_type.full_name, depth + 1))
+                getattr(m, f.name).SetInParent()
+            continue
+        if f.containing_oneof is not None:
+            if f.containing_oneof.name in seen_oneofs:
+                continue
+            seen_oneofs.add(f.containing_oneof.name)
+            setattr(m, f.name, f.default_value)
+    return m
+
+
 def hb(b64text):
     """short stable name of a payload: the model only compares payloads for equality"""
     return env.canon_hash(b64text) if b64text else ""
@@ -591,6 +615,13 @@ class ApiRun:
                             sent = stream
                         calls.append(c)
                         meta[cid] = (i, j, variant, sp, sent, replies, consume_ok)
+                    fz = falsy_present(self.dyn, rq) if not m.client_streaming else None
+                    if fz is not None and fz.ByteSize():
+                        for sp in ("message", "dict"):
+                            cid = f"{i}/{j}/{variant}/{sp}+falsy"
+                            calls.append(dict(base, id=cid, replies=[U.b64(x) for x in replies],
+                                              request={"mode": sp, "cls": self.cls_path(vm, "." + rq), "b64": U.b64(fz)}))
+                            meta[cid] = (i, j, variant, sp, [fz], replies, consume_ok, "request with only falsy-but-present fields")
                     auto = self.auto_fields(fp, s, m)
                     for state in (("unset", "value", "empty") if auto and not m.client_streaming else ()):
                         rm2 = type(reqmsg)()
